@@ -184,6 +184,25 @@ def haze_fn(case):
             r.check(bool(ok), 'partial-window-range', 'partial/' + tag, layer=l, sigma=sig[l], full=full)
     t = np.asarray(t, float)
     r.check(bool(np.all(t >= 0) and np.all(t <= 1)), 'transmittance-range', 'trans-range/' + kind)
+    # the haze alone, through both per-source entry points: the slant integral of exactly the per-layer extinction
+    # judged above (same layers, same order), and that extinction is still what the source holds afterwards
+    if np.all(np.isfinite(sig)):
+        dens = np.asarray(m.densityProfile, float)
+        segs, _, _ = rt.chord_segments(case.get('path', 'old'), m.planet.fullRadius,
+                                       np.asarray(m.altitude_boundaries, float), np.asarray(m.deltaz, float))
+        T_alone = np.exp(-rt.slant_tau(sig, dens, segs))
+        try:
+            _, cd = m.model_contrib()
+            _, fd = m.model_full_contrib()
+        except Exception as e:
+            r.check(False, 'no-exception', 'exception/%s/per-source/%s' % (type(e).__name__, tag), exc=repr(e))
+            return r
+        if r.check(hz.name in cd and hz.name in fd and len(fd[hz.name]) == 1, 'haze-alone', 'alone-names/' + kind,
+                   got=[sorted(cd), sorted(fd)]):
+            r.eq(np.asarray(cd[hz.name][1], float), T_alone, 'haze-alone', 'alone/contrib/' + tag, rtol=1e-9, atol=1e-15)
+            r.eq(np.asarray(fd[hz.name][0][2], float), T_alone, 'haze-alone', 'alone/component/' + tag, rtol=1e-9,
+                 atol=1e-15)
+        r.eq(np.asarray(hz.sigma_xsec, float), sig, 'haze-alone', 'alone/sigma-after/' + tag, rtol=0, atol=0)
     r.nontrivial = n_in > 0 and n_out > 0
     r.observe(sig, d)
     return r
@@ -240,7 +259,7 @@ def explore(ctx):
                 ccases.append({'N': N, 'prange': pr, 'cloud': let, 'with_abs': wa, 'path': path})
     ctx.run_cases('clouds_fn', ccases, phase='clouds')
     hcases = []
-    ns = NS if thorough else [5, 2, 3, 13]
+    ns = (NS if 1 in NS else NS + [1]) if thorough else [5, 2, 3, 13, 1]
     mixes = [1e-10, 1e-30, 1.0] if thorough else [1e-10, 1.0]
     for N, pr, top, bot in itertools.product(ns, PRANGES, BOUNDS, BOUNDS):
         for mix in mixes:
